@@ -10,7 +10,8 @@ from skactiveml.pool import *   # noqa
 from skactiveml.classifier import ParzenWindowClassifier, SklearnClassifier, MixtureModelClassifier
 from skactiveml.regressor import NICKernelRegressor, SklearnRegressor
 from sklearn.linear_model import LinearRegression
-from sklearn.tree import DecisionTreeRegressor
+from sklearn.tree import DecisionTreeRegressor, DecisionTreeClassifier
+from sklearn.naive_bayes import GaussianNB
 from sklearn.mixture import BayesianGaussianMixture
 
 NAN = float("nan")
@@ -23,6 +24,15 @@ def pwc(ml=NAN, classes=(0, 1), seed=0, **kw):
 def ens(ml=NAN, classes=(0, 1), seed=0):
     return [ParzenWindowClassifier(classes=list(classes), missing_label=ml, random_state=seed + i, metric_dict={"gamma": g})
             for i, g in enumerate((0.2, 1.0, 3.0))]
+
+
+def tree_clf(ml=NAN, classes=(0, 1), seed=0):
+    """alternative model with hard (one-hot) probabilities"""
+    return SklearnClassifier(DecisionTreeClassifier(random_state=0), classes=list(classes), missing_label=ml, random_state=seed)
+
+
+def nb_clf(ml=NAN, classes=(0, 1), seed=0):
+    return SklearnClassifier(GaussianNB(), classes=list(classes), missing_label=ml, random_state=seed)
 
 
 def nic():
@@ -76,8 +86,10 @@ ZOO = {
     "ProbabilisticAL-metric": Z("clf", lambda s, ml: ProbabilisticAL(random_state=s, missing_label=ml, metric="rbf"), clf_kw),
     "QBC-KL": Z("clf", lambda s, ml: QueryByCommittee(random_state=s, missing_label=ml), ens_kw, samplewise=(True, True),
                 arbitrary_idx=True),
+    # hard votes: a member's predict breaks exact probability ties with its own generator in row order, so a row permutation
+    # may change the votes of tied rows, and so may restricting the candidates; neither is claimed for hard votes
     "QBC-vote_entropy": Z("clf", lambda s, ml: QueryByCommittee(method="vote_entropy", random_state=s, missing_label=ml), ens_kw,
-                          samplewise=(True, True), arbitrary_idx=True),
+                          samplewise=(False, False), arbitrary_idx=True),
     "GreedyBALD": Z("clf", lambda s, ml: GreedyBALD(random_state=s, missing_label=ml), ens_kw, samplewise=(True, True), arbitrary_idx=True),
     "BatchBALD": Z("clf", lambda s, ml: BatchBALD(random_state=s, missing_label=ml), ens_kw, slow=True),
     "MonteCarloEER": Z("clf", lambda s, ml: MonteCarloEER(random_state=s, missing_label=ml), clf_kw, samplewise=(True, True), slow=True),
@@ -99,6 +111,12 @@ ZOO = {
     "Clue": Z("clf", lambda s, ml: Clue(random_state=s, missing_label=ml, cluster_algo_dict=dict(KD)), clf_kw, rows=False),
     "DropQuery": Z("clf", lambda s, ml: DropQuery(random_state=s, missing_label=ml, cluster_algo_dict=dict(KD)), clf_kw, rows=False),
     "Falcun": Z("clf", lambda s, ml: Falcun(random_state=s, missing_label=ml), clf_kw, sel="sampling"),
+    "Falcun-tree": Z("clf", lambda s, ml: Falcun(random_state=s, missing_label=ml), lambda ml, cl, s: dict(clf=tree_clf(ml, cl, s)), sel="sampling"),
+    "US-margin-tree": Z("clf", lambda s, ml: UncertaintySampling(method="margin_sampling", random_state=s, missing_label=ml),
+                        lambda ml, cl, s: dict(clf=tree_clf(ml, cl, s)), samplewise=(True, True), arbitrary_idx=True),
+    "US-entropy-nb": Z("clf", lambda s, ml: UncertaintySampling(method="entropy", random_state=s, missing_label=ml),
+                       lambda ml, cl, s: dict(clf=nb_clf(ml, cl, s)), samplewise=(True, True), arbitrary_idx=True),
+    "Contrastive-tree": Z("clf", lambda s, ml: ContrastiveAL(random_state=s, missing_label=ml), lambda ml, cl, s: dict(clf=tree_clf(ml, cl, s))),
     "Badge": Z("clf", lambda s, ml: Badge(random_state=s, missing_label=ml), clf_kw, sel="sampling"),
     "FourDs": Z("clf", lambda s, ml: FourDs(random_state=s, missing_label=ml), lambda ml, cl, s: dict(clf=mmc(ml, cl, s)), min_n=3),
     "EMCM": Z("reg", lambda s, ml: ExpectedModelChangeMaximization(random_state=s),
